@@ -389,40 +389,53 @@ def copies (c : Ctx) (src : Addr) (len : Nat) : Nat → Ctx
 
 def includeLimit : Nat := 32
 
+/-- parse_ifdef(): ifdef_count++, the reader walks over the directive -/
+def ifdefEnter (c : Ctx) : Ctx := { c with k := { c.k with ifdefCount := c.k.ifdefCount + 1 } }.echo ".ifdef"
+
+/-- `ignore_section`: the name is looked up among the macros and the symbols -/
+def ifdefIgnore (neg : Bool) (name : Nat) (c : Ctx) : Bool :=
+  let defined := (lookup c.k.defines name).isSome || (lookup c.k.syms name).isSome
+  if neg then defined else !defined
+
+def ifdefLeave (c : Ctx) : Ctx := { c with k := { c.k with ifdefCount := c.k.ifdefCount - 1 } }
+
+def repeatEnter (c : Ctx) : Ctx := { c with k := { c.k with inRepeat := true } }.echo ".repeat"
+
+/-- parse_repeat() after the body: in_repeat = 0, count-1 copies of [start, address) made from the image, the copies
+of code listed -/
+def repeatFinish (c : Ctx) (start : Addr) (count : Int) : Ctx :=
+  let c2 := { c with k := { c.k with inRepeat := false } }
+  let stop := c2.k.address
+  let c3 := copies c2 start (span start stop) (count.toNat - 1)
+  if c3.listing then c3.listAppend (listOutput c3.cell stop (span stop c3.k.address) ++ ["\n"]) else c3
+
+/-- include_parse(): write_list_file cleared, depth++ -/
+def includeEnter (c : Ctx) : Ctx :=
+  { c with rep := { c.rep with writeListFile := false }, k := { c.k with includeDepth := c.k.includeDepth + 1 } }
+
+/-- … depth--, write_list_file restored (whether or not the nested assemble() failed) -/
+def includeLeave (saved : Bool) (c : Ctx) : Ctx :=
+  { c with rep := { c.rep with writeListFile := saved }, k := { c.k with includeDepth := c.k.includeDepth - 1 } }
+
 def exec : Prog → Ctx → Res
   | .nil, c => ⟨c, true⟩
   | .simple s rest, c =>
     let r := step s c
     if r.ok then exec rest r.ctx else r
   | .ifdef neg name t e rest, c =>
-    let c1 := { c with k := { c.k with ifdefCount := c.k.ifdefCount + 1 } }.echo ".ifdef"
-    let defined := (lookup c1.k.defines name).isSome || (lookup c1.k.syms name).isSome
-    let ignore := if neg then defined else !defined
-    let r := if ignore then exec e c1 else exec t c1
-    if r.ok then exec rest { r.ctx with k := { r.ctx.k with ifdefCount := r.ctx.k.ifdefCount - 1 } } else r
+    let r := if ifdefIgnore neg name (ifdefEnter c) then exec e (ifdefEnter c) else exec t (ifdefEnter c)
+    if r.ok then exec rest (ifdefLeave r.ctx) else r
   | .repeat count body rest, c =>
     if c.k.inRepeat ∨ count ≤ 0 then ⟨c, false⟩                             -- a nested .repeat is an error
     else
-      let c1 := { c with k := { c.k with inRepeat := true } }.echo ".repeat"
-      let start := c1.k.address
-      let r := exec body c1
-      if !r.ok then r
-      else
-        let c2 := { r.ctx with k := { r.ctx.k with inRepeat := false } }
-        let stop := c2.k.address
-        let c3 := copies c2 start (span start stop) (count.toNat - 1)
-        let c4 := if c3.listing then c3.listAppend (listOutput c3.cell stop (span stop c3.k.address) ++ ["\n"]) else c3
-        exec rest c4
+      let r := exec body (repeatEnter c)
+      if r.ok then exec rest (repeatFinish r.ctx c.k.address count) else r
   | .include body rest, c =>
     if c.k.includeDepth ≥ includeLimit then ⟨c, false⟩                      -- "Includes nested too deep"
     else
-      let saved := c.rep.writeListFile
-      let c1 : Ctx := { c with rep := { c.rep with writeListFile := false },
-                               k := { c.k with includeDepth := c.k.includeDepth + 1 } }
-      let r := exec body c1
-      let c2 : Ctx := { r.ctx with rep := { r.ctx.rep with writeListFile := saved },
-                                   k := { r.ctx.k with includeDepth := r.ctx.k.includeDepth - 1 } }
-      if r.ok then exec rest c2 else ⟨c2, false⟩
+      let r := exec body (includeEnter c)
+      if r.ok then exec rest (includeLeave c.rep.writeListFile r.ctx)
+      else ⟨includeLeave c.rep.writeListFile r.ctx, false⟩
 
 /-! ### reset points -/
 
